@@ -24,10 +24,16 @@ def one(n):
     cfg = R.config_for(n)
     cfg['timeout'] = tmo
     return mqv.run_one(n, metas[n], cfg, build + '/work', 'quick')
+allres = {}
 with cf.ThreadPoolExecutor(max_workers=jobs) as ex:
     futs = {ex.submit(one, n): n for n in names}
     for fu in cf.as_completed(futs):
         r = fu.result()
+        allres[r['name']] = dict(status=r['status'], wall_s=round(r.get('wall_s', 0)), stats=r.get('stats'),
+                                 fails=[d for (_n, d, _l) in r.get('cls', {}).get('assert_fail', []) + r.get('cls', {}).get('builtin_fail', [])][:6],
+                                 unwind=[(d, l.get('file', ''), l.get('line')) for (_n, d, l) in r.get('cls', {}).get('unwind_fail', [])][:4],
+                                 cover_unsat=r.get('cls', {}).get('cover_unsat', []))
+        json.dump(allres, open(build + '/results.json', 'w'), indent=1)
         c = r.get('cls', {})
         st = r.get('stats', {})
         print('%-28s %-8s wall=%5.0fs symex=%s solver=%s steps=%s fail=%s unwind=%s cover_sat=%s cover_unsat=%s %s' % (
